@@ -30,6 +30,7 @@ import (
 	"github.com/nuetzliches/hookaido/internal/httpheader"
 	"github.com/nuetzliches/hookaido/internal/queue"
 	"github.com/nuetzliches/hookaido/internal/secrets"
+	"github.com/nuetzliches/hookaido/internal/verifhook"
 )
 
 const (
@@ -8368,9 +8369,11 @@ func writeFileAtomic(path string, data []byte) error {
 	if _, err := tmp.Write(data); err != nil {
 		return err
 	}
+	verifhook.Point("mcp.writefile.after_write")
 	if err := tmp.Sync(); err != nil {
 		return err
 	}
+	verifhook.Point("mcp.writefile.after_sync")
 	if err := tmp.Close(); err != nil {
 		return err
 	}
@@ -8378,6 +8381,7 @@ func writeFileAtomic(path string, data []byte) error {
 	if err := os.Rename(tmpPath, path); err != nil {
 		return err
 	}
+	verifhook.Point("mcp.writefile.after_rename")
 	keepTemp = true
 
 	if err := syncDir(dir); err != nil {
